@@ -271,6 +271,8 @@ instance (l : List SEv) : Decidable (Sorted l) := by unfold Sorted; exact inferI
 /-- A valid stream: at least one event, every event well-formed, clocks monotone. -/
 def Valid (evs : List SEv) : Prop := evs ≠ [] ∧ (∀ e ∈ evs, e.WF) ∧ Sorted evs
 
+instance (evs : List SEv) : Decidable (Valid evs) := by unfold Valid; exact inferInstance
+
 /-! ### `emu_ev` (src/emu/emu_ev.c): the decoded event handed to the models -/
 
 structure EmuEv where
